@@ -3,6 +3,7 @@ package world
 import (
 	"context"
 	"fmt"
+	"math"
 	"net/http"
 	"sort"
 	"strconv"
@@ -405,6 +406,14 @@ func milli(f float64) int {
 	return int(f*1000 + 0.5)
 }
 
+// exact reports whether the logged (rounded) integer is the float itself
+func exact(f float64) int {
+	if f < 0 || math.Abs(f-math.Floor(f+0.5)) < 1e-9 {
+		return 1
+	}
+	return 0
+}
+
 func mb(f float64) int {
 	if f < 0 {
 		return -1
@@ -431,7 +440,7 @@ func (w *World) queueInfo(ssn *framework.Session) {
 		qa := qs[common_info.QueueID(w.Sc.Queues[i].Name)]
 		if qa == nil {
 			out[i] = map[string]any{"present": 0, "fsG": 0, "desG": 0, "limG": 0, "allocG": 0, "npG": 0, "reqG": 0, "fsC": 0, "allocC": 0, "reqC": 0,
-				"fsM": 0, "allocM": 0, "desC": 0, "desM": 0, "w": 0, "useG": 0}
+				"fsM": 0, "allocM": 0, "desC": 0, "desM": 0, "w": 0, "useG": 0, "xG": 0, "xC": 0}
 			continue
 		}
 		g := qa.ResourceShare(rs.GpuResource)
@@ -441,7 +450,8 @@ func (w *World) queueInfo(ssn *framework.Session) {
 			"allocG": milli(g.Allocated), "npG": milli(g.AllocatedNotPreemptible), "reqG": milli(g.Request),
 			"fsC": int(c.FairShare + 0.5), "allocC": int(c.Allocated + 0.5), "reqC": int(c.Request + 0.5),
 			"fsM": mb(mm.FairShare), "allocM": mb(mm.Allocated), "desC": unl(c.Deserved), "desM": mb(mm.Deserved),
-			"w": int(g.OverQuotaWeight), "useG": milli(g.Usage)}
+			"w": int(g.OverQuotaWeight), "useG": milli(g.Usage),
+			"xG": exact(g.FairShare * 1000), "xC": exact(c.FairShare)}
 	}
 	w.emit(map[string]any{"ev": "QueueInfo", "q": out, "totG": milli(tot[rs.GpuResource]), "totC": int(tot[rs.CpuResource] + 0.5), "k": milli(k)})
 }
